@@ -91,6 +91,9 @@ class Gen:
 
     # -- the step ---------------------------------------------------------------
     def next(self):
+        q = self.__dict__.setdefault("queue", [])
+        if q:
+            return q.pop(0)
         if not self.all("netlist"):
             return {"op": "netlist_new", "name": self.name()}
         for _ in range(50):
@@ -548,3 +551,23 @@ class Gen:
             ev["hook"] = self.r.choice([h for h in HOOKS if not h.startswith("create_")])
             ev["at"] = self.r.randint(1, 4)
         return ev
+
+
+    # -- reader-built netlists (C10: lookup == scan also for what the readers build) -----------------
+    def f_parse_text(self):
+        if len(self.w.order) > 300:
+            return None
+        from . import textgen_edif, textgen_verilog
+        k = self.cfg.setdefault("_ptext", 0)
+        self.cfg["_ptext"] = k + 1
+        if self.r.random() < 0.6:
+            d = textgen_edif.gen_design(self.r, {"n_libs": self.r.choice([1, 2]), "max_cells": 2, "max_ports": 2,
+                                                 "max_insts": 2, "max_nets": 2})
+            text, ext = textgen_edif.render(d, self.r, {"ws": "plain"}), "edf"
+        else:
+            d = textgen_verilog.gen_design(self.r, {"depth": 1, "max_mods": 1, "max_ports": 2, "max_wires": 2,
+                                                    "max_insts": 2, "max_prims": 1})
+            text, ext = textgen_verilog.render(d, self.r, {"ws": "plain"}), "v"
+        path = "sim://t%d.%s" % (k, ext)
+        self.queue.append({"op": "parse", "path": path})
+        return {"op": "fs_put", "path": path, "text": text}
